@@ -170,12 +170,6 @@ pub fn op(f: &[&str]) -> String {
             shell::do_expansion(&mut a.sh, &mut t);
             pidpfx(tokens_str(&t))
         }
-        "tpl" => {
-            // the regex crate's replacement-template language, on the pattern the $(..) splice uses
-            let re = regex::Regex::new(r"(?P<head>[^\$]*)\$\(.+\)(?P<tail>.*)").unwrap();
-            let hay = format!("{}$(x){}", dec(f[1]), dec(f[2]));
-            q(&re.replace(&hay, dec(f[3]).as_str()))
-        }
         _ => "?bad-case".to_string(),
     }
 }
